@@ -214,3 +214,51 @@ Definition chol_kernel (A : matrix F) : matrix F * nat :=
   let '(L, info) := chol_rows A O [] in (pad (length A) L, info).
 
 End Kernel.
+
+(* ---------------------------------------------------------------- the settings contexts themselves
+   (linear_operator/settings.py).  `settings.cholesky_jitter` is a `_dtype_value_context`, `settings.cholesky_max_tries`
+   a `_value_context`, `settings.trace_mode` a `_feature_flag`; `__enter__` calls `_set_value` / `_set_state` with the
+   constructor arguments.  The state a `with` body sees is modelled here; that `__exit__` restores the previous
+   state is the subject of C17. *)
+Section SettingsContexts.
+Variable F : Type.
+
+(* _dtype_value_context._set_value(float_value, double_value, half_value):
+       if float_value is not None:  cls._global_float_value = float_value      (same for double, half)
+   `None` = "not specified" keeps the value in force; every other value — 0.0 included — replaces it *)
+Definition set_cholesky_jitter (st : settings F) (fv dv hv : option F) : settings F :=
+  MkSettings (match fv with Some x => x | None => cj_float st end)
+             (match dv with Some x => x | None => cj_double st end)
+             (match hv with Some x => x | None => cj_half st end)
+             (cmt_value st) (trace_on st).
+
+(* _value_context._set_value(value):  cls._global_value = value *)
+Definition set_cholesky_max_tries (st : settings F) (v : Z) : settings F :=
+  MkSettings (cj_float st) (cj_double st) (cj_half st) v (trace_on st).
+
+(* _feature_flag._set_state(state); on() = state when it is not None *)
+Definition set_trace_mode (st : settings F) (b : bool) : settings F :=
+  MkSettings (cj_float st) (cj_double st) (cj_half st) (cmt_value st) b.
+
+Inductive context :=
+| CtxJitter (fv dv hv : option F)      (* with settings.cholesky_jitter(float_value=fv, double_value=dv, half_value=hv): *)
+| CtxMaxTries (v : Z)                   (* with settings.cholesky_max_tries(v): *)
+| CtxTrace (b : bool).                  (* with settings.trace_mode(b): *)
+
+Definition enter (st : settings F) (c : context) : settings F :=
+  match c with
+  | CtxJitter fv dv hv => set_cholesky_jitter st fv dv hv
+  | CtxMaxTries v => set_cholesky_max_tries st v
+  | CtxTrace b => set_trace_mode st b
+  end.
+
+(* with c1: with c2: … with ck: <body>   — the state the body runs in (outermost context first) *)
+Definition enter_all (st : settings F) (cs : list context) : settings F := fold_left enter cs st.
+
+(* the constructor argument of a cholesky_jitter context that belongs to dtype dt *)
+Definition jitter_slot (dt : dtype) (fv dv hv : option F) : option F :=
+  match dt with Float32 => fv | Float64 => dv | Float16 => hv end.
+
+End SettingsContexts.
+Arguments CtxMaxTries {F}.
+Arguments CtxTrace {F}.
